@@ -19,11 +19,13 @@ type Opts struct {
 	TOCMax    int  `json:"toc_max"`
 }
 
-// Tok is S (or, for bytes that JSON strings cannot carry, B) repeated N times.
+// Tok is S (or, for bytes that JSON strings cannot carry, B) repeated N times. F marks S as the body of a formula
+// (LaTeX without its $ delimiters): it is, in addition, handed to LaTeXToOMMLString by itself.
 type Tok struct {
 	S string `json:"s,omitempty"`
 	B []byte `json:"b,omitempty"`
 	N int    `json:"n"`
+	F bool   `json:"f,omitempty"`
 }
 
 // Inl is an inline node. K: t(ext) em st(rong) del code link sb(soft break) math
@@ -69,7 +71,7 @@ type Blk struct {
 type Case struct {
 	Kind  string `json:"kind"`            // bytes | ast
 	Cls   string `json:"cls,omitempty"`   // generator class (label only)
-	Entry string `json:"entry,omitempty"` // bytes | string | file
+	Entry string `json:"entry,omitempty"` // bytes | string | file | batch
 	Opts  Opts   `json:"opts"`
 	Toks  []Tok  `json:"toks,omitempty"`
 	Doc   []Blk  `json:"doc,omitempty"`
